@@ -5920,7 +5920,7 @@ impl BytecodeVM {
                 {
                     match &value {
                         JsValue::Object(proto) => {
-                            obj_ref.borrow_mut().prototype = Some(proto.clone());
+                            crate::value::set_prototype_checked(obj_ref, Some(proto.clone()))?;
                         }
                         JsValue::Null => {
                             obj_ref.borrow_mut().prototype = None;
